@@ -57,6 +57,41 @@ func runC38(c *Ctx) {
 	}
 
 	r2 := c.Rule("R2", "the L1 cache returns materialised copies only", 2)
+	r3 := c.Rule("R3", "the L1 cache stores a clone of the caller's node", 1)
+	l1IsolationRules(c, r2, r3)
+
+	r4 := c.Rule("R4", "a value fetched for a reader is dropped from the transaction's node again when the cursor moves: unfetchCurrentValue relies on Item.valueWasFetched of the node's slot, so every place that marks a value as fetched writes the marker through a pointer into the node - never into a local copy of the item", 3)
+	{
+		marker := w.Field("btree", "Item", "valueWasFetched")
+		nSites := 0
+		for _, fn := range w.declaredFuncs("btree") {
+			info := fn.Pkg.TypesInfo
+			for _, ws := range w.writesOf(fn, marker, true) {
+				if ws.Rhs == nil || !isBoolLit(info, ws.Rhs, true) {
+					continue
+				}
+				as, _ := ws.Stmt.(*ast.AssignStmt)
+				if as == nil {
+					continue
+				}
+				nSites++
+				for _, l := range as.Lhs {
+					if fieldOfSelector(info, l) != marker {
+						continue
+					}
+					c.Check(!rootedAtLocalValue(info, l), r4, fmt.Sprintf("%s: fetch marker #%d is set on the node's slot", shortKey(fn.Key), ordinalOfWrite(w, fn, marker, ws)), ws.Pos, "written through a pointer",
+						"the marker is set on a local copy of the item: the slot in the transaction's node keeps the fetched value object without the marker, unfetchCurrentValue never drops it, and if the same transaction updates a sibling item of that node and commits, the node is persisted and cached with the reader's (possibly modified in place) value inline - later transactions read a value nobody wrote", nil)
+				}
+			}
+		}
+		c.Check(nSites >= 3, r4, "valueWasFetched = true sites inventoried", token.NoPos, fmt.Sprintf("%d sites", nSites), fmt.Sprintf("only %d sites", nSites), nil)
+	}
+}
+
+// l1IsolationRules (C38.R2/R3, shared by C02.R6 and C03.R7): the host-wide L1 cache never shares a node object
+// with a transaction, in either direction.
+func l1IsolationRules(c *Ctx, r2, r3 string) {
+	w := c.W
 	{
 		nodeData := w.Field("cache", "l1CacheEntry", "nodeData")
 		n := 0
@@ -134,7 +169,6 @@ func runC38(c *Ctx) {
 		c.Check(n >= 2, r2, "L1 cache getters inventoried", token.NoPos, fmt.Sprintf("%d", n), fmt.Sprintf("only %d found", n), nil)
 	}
 
-	r3 := c.Rule("R3", "the L1 cache stores a clone of the caller's node", 1)
 	{
 		nodeData := w.Field("cache", "l1CacheEntry", "nodeData")
 		var bad []string
@@ -171,30 +205,4 @@ func runC38(c *Ctx) {
 		c.Check(len(bad) == 0 && n >= 2, r3, "every value stored in an L1 entry is a clone", token.NoPos, fmt.Sprintf("%d store site(s), all through cloneCacheNodeValue", n), fmt.Sprintf("the caller's own node instance is stored in the cache at %v: the transaction keeps mutating it while other transactions are served from it", bad), nil)
 	}
 
-	r4 := c.Rule("R4", "a value fetched for a reader is dropped from the transaction's node again when the cursor moves: unfetchCurrentValue relies on Item.valueWasFetched of the node's slot, so every place that marks a value as fetched writes the marker through a pointer into the node - never into a local copy of the item", 3)
-	{
-		marker := w.Field("btree", "Item", "valueWasFetched")
-		nSites := 0
-		for _, fn := range w.declaredFuncs("btree") {
-			info := fn.Pkg.TypesInfo
-			for _, ws := range w.writesOf(fn, marker, true) {
-				if ws.Rhs == nil || !isBoolLit(info, ws.Rhs, true) {
-					continue
-				}
-				as, _ := ws.Stmt.(*ast.AssignStmt)
-				if as == nil {
-					continue
-				}
-				nSites++
-				for _, l := range as.Lhs {
-					if fieldOfSelector(info, l) != marker {
-						continue
-					}
-					c.Check(!rootedAtLocalValue(info, l), r4, fmt.Sprintf("%s: fetch marker #%d is set on the node's slot", shortKey(fn.Key), ordinalOfWrite(w, fn, marker, ws)), ws.Pos, "written through a pointer",
-						"the marker is set on a local copy of the item: the slot in the transaction's node keeps the fetched value object without the marker, unfetchCurrentValue never drops it, and if the same transaction updates a sibling item of that node and commits, the node is persisted and cached with the reader's (possibly modified in place) value inline - later transactions read a value nobody wrote", nil)
-				}
-			}
-		}
-		c.Check(nSites >= 3, r4, "valueWasFetched = true sites inventoried", token.NoPos, fmt.Sprintf("%d sites", nSites), fmt.Sprintf("only %d sites", nSites), nil)
-	}
 }
